@@ -880,16 +880,27 @@ def r5_check_raises_model_errors(ctx):
     }
     tests = [n for n in walk_no_nested(check_fn, False)
              if isinstance(n, ast.If)]
+    from ..symres import Resolver
+    Rk = Resolver(check_fn)
+
+    def side(e):
+        return Rk.text(e).replace("frozenset(", "set(")
     for label, (a, b) in wanted.items():
         found = False
         for t in tests:
             tt = t.test
-            if isinstance(tt, ast.Compare) and len(tt.ops) == 1 and \
-                    isinstance(tt.ops[0], ast.NotEq):
-                pair = {norm(tt.left), norm(tt.comparators[0])}
-                if pair == {a, b} and any(isinstance(x, ast.Raise)
-                                          for x in t.body):
-                    found = True
+            if not (isinstance(tt, ast.Compare) and len(tt.ops) == 1
+                    and any(isinstance(x, ast.Raise) for x in t.body)):
+                continue
+            l_, r_ = side(tt.left), side(tt.comparators[0])
+            if isinstance(tt.ops[0], ast.NotEq) and {l_, r_} == {a, b}:
+                found = True
+            # (a set is never longer than the sequence it was built from)
+            if label == "unique names" and (
+                    (isinstance(tt.ops[0], ast.Lt) and (l_, r_) == (b, a))
+                    or (isinstance(tt.ops[0], ast.Gt)
+                        and (l_, r_) == (a, b))):
+                found = True
         ctx.check(found, check_fn, f"consistency test: {label}",
                   f"_module_check no longer rejects a module with mismatched "
                   f"{label} (expected `{a} != {b}` guarding a raise)")
